@@ -28,20 +28,20 @@ package blob
 //@   inline
 
 //@ func (b *Bytes) Len() (r int)
-//@   props C19
+//@   props C19 C02
 //@   requires inv(b)
 //@   ensures "len" r == len(b.bytes)
 //@   pure
 //@   nopanic
 
 //@ func (b *Bytes) Bytes() (r []byte)
-//@   props C19
+//@   props C19 C02
 //@   requires inv(b) && !held(b.mu)
 //@   ensures "copy" fresh(r) && len(r) == len(b.bytes) && forall(i, 0, len(r), r[i] == old(b.bytes[i]))
 //@   nopanic
 
 //@ func (b *Bytes) View(start, end int64) (r Blob, err error)
-//@   props C19
+//@   props C19 C02
 //@   requires inv(b) && !held(b.mu)
 //@   ensures "range" iff(err == nil, 0 <= start && start <= end && end <= len(b.bytes))
 //@   ensures "alias" implies(err == nil, isType(r, *Bytes) && fresh(r.(*Bytes)) && inv(r.(*Bytes)) &&
@@ -50,7 +50,7 @@ package blob
 //@   nopanic
 
 //@ func (b *Bytes) Slice(start, end int64) (r Blob, err error)
-//@   props C19
+//@   props C19 C02
 //@   requires inv(b) && !held(b.mu)
 //@   ensures "range" iff(err == nil, 0 <= start && start <= end && end <= len(b.bytes))
 //@   ensures "copy" implies(err == nil, isType(r, *Bytes) && fresh(r.(*Bytes)) && inv(r.(*Bytes)) && fresh(r.(*Bytes).bytes) &&
@@ -60,7 +60,7 @@ package blob
 //@   nopanic
 
 //@ func (b *Bytes) Set(src Blob, destStart int64) (n int, err error)
-//@   props C19
+//@   props C19 C02
 //@   requires inv(b) && !held(b.mu) && blobOK(src) && !blobLocked(src)
 //@   modifies elems(b.bytes)
 //@   ensures "range" implies(destStart < 0 || destStart > len(b.bytes), err != nil)
@@ -72,7 +72,7 @@ package blob
 //@   nopanic
 
 //@ func (b *Bytes) Grow(offset int64) (err error)
-//@   props C19
+//@   props C19 C02
 //@   requires inv(b) && !held(b.mu)
 //@   requires "size-bound" len(b.bytes) + offset <= 1<<40
 //@   modifies b.bytes, b.length, elems(b.bytes)
@@ -85,7 +85,7 @@ package blob
 //@   nopanic
 
 //@ func (b *Bytes) Truncate(size int64) (err error)
-//@   props C19
+//@   props C19 C02
 //@   requires inv(b) && !held(b.mu)
 //@   modifies b.bytes, b.length
 //@   ensures "neg" implies(size < 0, err != nil && b.bytes == old(b.bytes))
@@ -143,7 +143,7 @@ package blob
 //@   nopanic
 
 //@ func Slice(b Blob, start int64, end int64) (r Blob, err error)
-//@   props C19
+//@   props C19 C02
 //@   requires blobOK(b) && !blobLocked(b)
 //@   dispatch SliceBlob *Bytes
 //@   dispatch Blob *Bytes
